@@ -204,6 +204,18 @@ func (c *Ctx) Violation(class string, what string, replay any, noInput bool) {
 
 func (c *Ctx) NViolations() int { return len(c.violations) }
 
+// Reported tells whether a violation (or known finding) of this class was already printed in this run:
+// harnesses use it to skip the (expensive) shrinking of further failing cases of a class that has its replay
+func (c *Ctx) Reported(class string) bool {
+	for _, v := range c.violations {
+		if v == class {
+			return true
+		}
+	}
+	_, known := c.knownSeen[class]
+	return known
+}
+
 // Finish writes the evidence fragment and exits 0/1.
 func (c *Ctx) Finish(rule string) {
 	keys := make([]string, 0, len(c.knownSeen))
